@@ -245,7 +245,7 @@ func genEntries(t *rapid.T, label string, p *big.Int, r, c int, style string) *r
 func genMatrix(t *rapid.T, label string, p *big.Int, r, c int) (*refmat.Mat, string) {
 	var m *refmat.Mat
 	var class string
-	switch rapid.IntRange(0, 9).Draw(t, label+".how") {
+	switch rapid.IntRange(0, 11).Draw(t, label+".how") {
 	case 0:
 		m, class = genEntries(t, label, p, r, c, "uniform"), "uniform"
 	case 1:
@@ -255,7 +255,13 @@ func genMatrix(t *rapid.T, label string, p *big.Int, r, c int) (*refmat.Mat, str
 	case 4:
 		m, class = refmat.Zero(p, r, c), "zero"
 	default:
-		k := rapid.IntRange(0, min(r, c)).Draw(t, label+".k")
+		// product of an r×k and a k×c factor: rank <= k; k = 0 is rare, k = min(r,c) common
+		k := min(r, c)
+		if k > 1 && rapid.IntRange(0, 3).Draw(t, label+".deficient") > 0 {
+			k = rapid.IntRange(1, k-1).Draw(t, label+".k")
+		} else if rapid.IntRange(0, 19).Draw(t, label+".k0") == 0 {
+			k = 0
+		}
 		style := rapid.SampledFrom([]string{"tiny", "uniform", "mixed"}).Draw(t, label+".style")
 		u := genEntries(t, label+".U", p, r, k, style)
 		v := genEntries(t, label+".V", p, k, c, style)
